@@ -289,6 +289,13 @@ func (e *execState) classifyBeginMismatch(bo *blockObs, impl []MTransfer) []stri
 		if differ(func(t MTransfer) bool { return t.From == a.PayEscrow && t.To != a.VestEscrow && t.To != a.Auctioneer }) {
 			attributed = true
 			set["C04"] = true
+			// the same quantities at another price: a clearing matter if the implementation also
+			// publishes a price other than the lowest one whose capped demand fits
+			if a.Type == TypeBatch && a.MatchedPrice != nil && bo.Cur != nil && a.ID < uint64(len(bo.Cur.Auctions)) {
+				if ip, ok := parseDec(bo.Cur.Auctions[a.ID].MatchedPrice); ok && ip.Cmp(a.MatchedPrice) != 0 {
+					set["C03"] = true
+				}
+			}
 		}
 		if differ(func(t MTransfer) bool {
 			return (t.From == a.PayEscrow && (t.To == a.VestEscrow || t.To == a.Auctioneer)) || (t.From == a.SellEscrow && t.To == a.Auctioneer)
